@@ -165,7 +165,15 @@ def stereo_mol_graph_to_rdmol(
 
     map_num_idx_dict = {v: k for k, v in idx_map_num_dict.items()}
 
-    for atom in graph.atoms:
+    # The octahedral branch below removes and re-adds the bonds of its centre,
+    # which changes the neighbour order of the ligand atoms. The tags of the
+    # other centres are computed from their neighbour order, so the octahedral
+    # centres have to come first.
+    atoms_octahedral_first = sorted(
+        graph.atoms,
+        key=lambda a: not isinstance(graph.get_atom_stereo(a), Octahedral),
+    )
+    for atom in atoms_octahedral_first:
         a_stereo = graph.get_atom_stereo(atom)
         atom_idx = map_num_idx_dict[atom]
         rd_atom = mol.GetAtomWithIdx(atom_idx)
